@@ -4,7 +4,7 @@ from datetime import date
 DESCS = ['NETFLIX.COM Uber eats', 'star-BUCKS  *7', "O'Reilly Café AMZN Mktp", 'UBER EATS 42 SQ *COSTCO', 'ÜBER whole Foods #12',
          'Netflix', 'uber   eats', 'COSTCO GAS 100', 'AMZN Mktp US*7 NETFLIX', 'a.b-*  ', 'net', 'SQ *STAR bucks REF:77',
          'UBER TRIP 7', 'WHOLE FOODS MARKET #12 WA', 'AMAZON PRIME', 'STARBUCKS STORE 42', 'costco whole foods', 'ZZ unmatched thing',
-         'Plain Unknown Vendor 99', '', 'UBER\u00a0EATS 9', 'WHOLE\u3000FOODS\u2009MKT']
+         'Plain Unknown Vendor 99', '', 'UBER\u00a0EATS 9', 'WHOLE\u3000FOODS\u2009MKT', 'SILENT NIGHT BOOKS', 'STRESSED OUT SPA', 'STARBUKS #9']
 MEMOS = [' x ', '', 'NETFLIX', 'Uber', 'a.b', 'netflix', 'REF:9', '100', 'x', '  ', 'NET', 'PROJ:alpha', 'Hauptstra\u00dfe 5', '\u039f\u0394\u039f\u03a3-7']
 CODES = ['AB-cd-3', 'x', 'REF:123 #45', '', '--', 'AB', 'A-B', '0', ' AB ', 'net', '#7']
 DATES = [date(2025, 1, 15), date(2024, 12, 31), date(2025, 2, 28), date(2025, 1, 1), date(2024, 2, 29), date(2025, 12, 31),
